@@ -249,12 +249,18 @@ def check_tree(ctx, spec, record=True):
             # 2. normal forms of boolean nodes and atoms
             if nspec["k"] not in G.BOOL_KINDS and nspec["k"] != "atom":
                 continue
-            if G.dnf_size_bound(nspec) > 400:
-                ctx.count("nf_skipped_big")
-                continue
+            # pkgcore's expansions are exponential by nature; keep to sizes that are judged quickly
+            dl = G.dnf_lengths(nspec)
+            skip = set()
+            if dl is None or len(dl) > 400:
+                skip.add("dnf")
+            if dl is None or G.cnf_count(nspec) > 3000:
+                skip.add("cnf")
+            for fam in skip:
+                ctx.count(f"nf_skipped_big:{fam}")
             failed_fam = set()
             for fam, meth, args in FORMS:
-                if fam in failed_fam:
+                if fam in failed_fam or fam in skip:
                     continue
                 try:
                     sols = getattr(obj, meth)(*args)
